@@ -152,6 +152,16 @@ theorem Good_init (ops : List Op) : Good {} ops := by
   | map c => intro i k; simp
   | handle g => intro i l k hl; simp [MapNode.layers] at hl; subst hl; simp
 
+theorem Links_initF (F : HId → Nat → Bool) : Links (init F) :=
+  ⟨fun i k c hc => by simp at hc, fun i l k g hl hg => by
+    simp [MapNode.layers] at hl; subst hl; simp at hg, fun i k n hn => by simp at hn⟩
+
+theorem Good_initF (F : HId → Nat → Bool) (ops : List Op) : Good (init F) ops := by
+  refine ⟨Links_initF F, fun v _ => ?_⟩
+  cases v with
+  | map c => intro i k; simp
+  | handle g => intro i l k hl; simp [MapNode.layers] at hl; subst hl; simp
+
 theorem valuesOf_append (a b : List Op) : valuesOf (a ++ b) = valuesOf a ++ valuesOf b := by
   induction a with
   | nil => rfl
@@ -449,7 +459,8 @@ theorem getItemPath_cons (st : St) (i : MId) (k : String) (ks : List String) (la
 theorem getItemPath_chain (st : St) (ho : OneKind st) (i : MId) (ks : List String) (last : String) :
     chainItems st i (ks ++ [last]) = getItemPath st i ks last ∨
     ((getItemPath st i ks last) = (st, .raised "KeyError") ∧
-      (chainItems st i (ks ++ [last])).2 = .stuck) := by
+      ((chainItems st i (ks ++ [last])).2 = .stuck ∨
+       (chainItems st i (ks ++ [last])).2 = .raised "LoadError")) := by
   induction ks generalizing i with
   | nil => left; exact chainItems_single st i last
   | cons k ks ih =>
@@ -464,7 +475,13 @@ theorem getItemPath_chain (st : St) (ho : OneKind st) (i : MId) (ks : List Strin
       simp only [getItemPath, walk, hc]
       cases hh : chainGet? (st.m i).layers k with
       | none => left; rfl
-      | some g => right; simp
+      | some g =>
+        right
+        refine ⟨trivial, ?_⟩
+        cases hx : (callH st g).2 with
+        | none => left; simp [itemOf, hx]
+        | tok a n => left; simp [itemOf, hx]
+        | exc a n => right; simp [itemOf, hx]
 
 theorem getChain_single (st : St) (i : MId) (k : String) : getChain st i [k] = lookup st i k := by
   simp only [getChain]
